@@ -111,6 +111,79 @@ def check_spec(spec: NetSpec, label, st: Stats, plan):
                                      f"{sym} compact={compact} more_out={more_out} symbolic={symbolic}: next {slot[2]}[{slot[3]}] "
                                      f"of {slot[1]} = {x!r}, NumPy gives {e!r} at {vlabel}",
                                      dict(case, val={f"{k[0]}.{k[1]}": v for k, v in val.items()})))
+    # positivity options (init: the variables become max(0, symbol) expressions; next: clamps on the results), on
+    # vectors with negative entries
+    if plan.get("posopts"):
+        from .c11 import special_vectors
+        nvecs = special_vectors(spec)
+        for oname, opts in (("init", {"positive_init_speed": True, "positive_init_density": True, "positive_init_queue": True}),
+                            ("next", {"positive_next_speed": True, "positive_next_density": True, "positive_next_queue": True})):
+            try:
+                refs = [np_step(spec, v, P, opts=opts)[0] for _, v in nvecs]
+            except Exception as e:  # noqa: BLE001
+                problems.append((f"C03/numpy-exception/{exc_site(e)}/{type(e).__name__}", f"numpy twin with {oname} options: "
+                                 f"{exc_text(e)}", {"spec": spec.describe(), "config": label, "P": P}))
+                continue
+            st.inc("executions", len(nvecs))
+            for sym, compact in plan["posopts"]:
+                st.inc("transitions", 2)
+                case = {"spec": spec.describe(), "config": label, "P": P, "sym": sym, "compact": compact, "more_out": False,
+                        "symbolic": False, "posopts": oname}
+                try:
+                    F, built = compile_variant(spec, sym, compact, False, False, P, opts=opts)
+                    outs = eval_layout(F, Layout(spec, compact=compact, more_out=False), [v for _, v in nvecs])
+                except Exception as e:  # noqa: BLE001
+                    problems.append((f"C03/exception/{exc_site(e)}/{type(e).__name__}", f"{sym} compact={compact} with {oname} "
+                                     f"positivity options: {exc_text(e)}", case))
+                    continue
+                st.inc("executions", len(nvecs))
+                st.inc("functions_compiled")
+                for (vlabel, val), o, ref in zip(nvecs, outs, refs):
+                    bad = None
+                    for slot, x in o.items():
+                        if slot[0] != "x+":
+                            continue
+                        e = ref[(slot[1], slot[2])][slot[3]]
+                        st.inc("components_compared")
+                        # NaN in NumPy (negative density under a non-integer power) is engine-defined under max(0, .)
+                        if e != e or x != x:
+                            continue
+                        if not close(x, e):
+                            bad = f"next {slot[2]}[{slot[3]}] of {slot[1]} = {x!r}, NumPy gives {e!r}"
+                            break
+                    if bad:
+                        problems.append((f"C03/positivity-options/{oname}/{sym}", f"{sym} compact={compact} with the {oname} positivity "
+                                         f"options: {bad} at {vlabel}", dict(case, val={f"{k[0]}.{k[1]}": v for k, v in val.items()})))
+                        break
+    # whole-number states given to the NumPy engine as arrays of INTEGER dtype (legal caller input) against the function
+    if plan.get("supply"):
+        from ..harness import Compiled as _C, cs_compile as _cc
+        try:
+            F_, b_, _ = _cc(spec, "SX", P, compact=0)
+            comp_ = _C(F_, b_)
+            for vlabel, val in valgen.vectors(spec, 0):
+                vi = {k: [float(round(x)) if abs(x) != float("inf") else x for x in v] for k, v in val.items()}
+                o = comp_.eval_many([vi])[0]
+                for shape in ("1d", "0d"):
+                    st.inc("executions", 2)
+                    ref = np_step(spec, vi, P, integer=True, scalar_shape=shape)[0]
+                    bad = None
+                    for (key, var), lst in ref.items():
+                        for j, e in enumerate(lst):
+                            x = float(o[(key, var)][j])
+                            st.inc("components_compared")
+                            if not (close(x, e) or (x != x and e != e)):
+                                bad = f"next {var}[{j}] of {key} = {x!r}, NumPy (integer arrays, {shape} scalars) gives {e!r}"
+                                break
+                        if bad:
+                            break
+                    if bad:
+                        problems.append(("C03/integer-arrays/SX", f"SX compact=0: {bad} at {vlabel} rounded to whole numbers",
+                                         {"spec": spec.describe(), "config": label, "P": P, "sym": "SX", "supplied": []}))
+                        break
+        except Exception as e:  # noqa: BLE001
+            problems.append((f"C03/exception/{exc_site(e)}/{type(e).__name__}", f"integer caller arrays: {exc_text(e)}",
+                             {"spec": spec.describe(), "config": label, "P": P, "sym": "SX", "supplied": []}))
     # the caller supplies its own symbols for only PART of the variables (partial init_conditions): same function values
     if plan.get("supply"):
         from ..harness import Compiled, cs_compile, supply_modes
@@ -171,8 +244,8 @@ def plans(tier, seed):
         jobs = [({"pset": 0, "d": 1, "variants": variants("quick")}, [(lab, s) for _, lab, s in all_specs(3, 3, 0, pal)]
                  + [(f"harness:{k}", s) for k, s in harness_specs(pal).items()]),
                 ({"pset": 0, "d": 1, "variants": light}, [(lab, s) for _, lab, s in all_specs(3, 3, 1, pal)]),
-                ({"pset": 0, "d": -1, "variants": [], "supply": ["SX"]}, [(lab, s) for _, lab, s in all_specs(3, 3, 0, pal)
-                                                                          if lab in ("base", "mixed", "all-vsl", "all-main/ramp_in")]
+                ({"pset": 0, "d": -1, "variants": [], "supply": ["SX"], "posopts": [("SX", 0), ("MX", 2)]},
+                 [(lab, s) for _, lab, s in all_specs(3, 3, 0, pal) if lab in ("base", "mixed", "all-vsl", "all-main/ramp_in")]
                  + [(f"harness:{k}", s) for k, s in harness_specs(pal).items()])]
         bounds = {"shapes": "(n,m)<=(3,3): base+uniform configurations with 11 variants, c<=1 with 3 variants",
                   "partial_conditions": "(n,m)<=(3,3) base / mixed / all-vsl / all-main+ramp_in configurations + harness on SX: "
@@ -187,7 +260,8 @@ def plans(tier, seed):
                 ({"pset": 0, "d": 1, "variants": variants("quick")}, a),
                 ({"pset": 2, "d": 1, "variants": light}, b),
                 ({"pset": 1, "d": 0, "variants": variants("thorough")}, a),
-                ({"pset": 0, "d": -1, "variants": [], "supply": ["SX", "MX"]}, a0 + h)]
+                ({"pset": 0, "d": -1, "variants": [], "supply": ["SX", "MX"],
+                  "posopts": [(s_, c_) for s_ in ("SX", "MX") for c_ in (0, 1, 2)]}, a0 + h)]
         bounds = {"shapes": "(3,4) base+uniform + harness with all 24 variants (d<=1); (3,4) c<=1 with 11 variants (d<=1) and all "
                             "24 variants on the base vectors; 4-node shapes (4,4) base+uniform with 3 variants",
                   "value_deviation": 1, "palette": pal}
@@ -215,8 +289,10 @@ def replay(case):
     spec = NetSpec.from_json(case["spec"])
     st = Stats()
     plan = {"pset": MODEL_PARAMS.index(case["P"]) if case["P"] in MODEL_PARAMS else 0, "d": 1,
-            "variants": [(case["sym"], case["compact"], case["more_out"], case["symbolic"])] if "compact" in case else
-            ([] if "supplied" in case else variants("quick")), "supply": [case["sym"]] if "supplied" in case else None}
+            "variants": [(case["sym"], case["compact"], case["more_out"], case["symbolic"])] if ("compact" in case and "posopts" not in case) else
+            ([] if ("supplied" in case or "posopts" in case) else variants("quick")),
+            "supply": [case["sym"]] if "supplied" in case else None,
+            "posopts": [(case["sym"], case["compact"])] if "posopts" in case else None}
     problems = check_spec(spec, case.get("config", "?"), st, plan)
     lines = [f"network {spec.short()}"] + [f"  {sig}: {msg}" for sig, msg, c in problems[:20]]
     return lines, bool(problems)
